@@ -96,6 +96,8 @@ def text_values(ctx):
     for i in list(range(0, 32)) + [0x7f, 0x85, 0xa0, 0xfeff, 0xfffe, 0xffff, 0x10000, 0x10ffff, 0xd7ff, 0xe000]:
         vals.append(("control", "a" + chr(i) + "b"))
     vals.append(("empty", ""))
+    for s_ in ("\ufeff", "\ufeffhello", "\ufeff\ufeffx", "\ufeff\n", "\ufffe", "\ufffeabc", "\ufeff" + "é" * 3):
+        vals.append(("bom-first", s_))          # U+FEFF as the first character is data, not a byte-order mark
     vals.append(("large", "line one\r\nline two\rline three\n\u2028é" * 25000))          # ~1 MB, implementation side only
     for _ in range(ctx.n(150, 3000)):
         vals.append(("random", rand_text(ctx.rng)))
@@ -256,6 +258,34 @@ def extra_scenarios(ctx):
             elif got != (va, vb) or b_after != vb:
                 ctx.fail("mounted:interference", "two MountedStore(%s) whose operations overlap read back %r / %r, written %r / %r"
                          % (create.__name__, got, b_after, va, vb), {"store": kind})
+        # (a'') pickle: the object GRAPH comes back - shared sub-objects stay shared, cycles stay cycles
+        shared = [1, 2]
+        cyc = [1]
+        cyc.append(cyc)
+        dcyc = {"k": 1}
+        dcyc["self"] = dcyc
+        child = Pt(None, "child")
+        parent = Pt([child], "parent")
+        child.x = parent
+        for name, value, ok in (("shared", {"a": shared, "b": shared}, lambda g: g["a"] == [1, 2] and g["a"] is g["b"]),
+                                ("self-list", cyc, lambda g: g[0] == 1 and g[1] is g),
+                                ("self-dict", dcyc, lambda g: g["k"] == 1 and g["self"] is g),
+                                ("parent-pointers", parent, lambda g: g.y == "parent" and g.x[0].y == "child" and g.x[0].x is g)):
+            for via in ("direct", "mounted"):
+                ctx.case(("c12-pickle-graph", name, via))
+                try:
+                    if via == "direct":
+                        stp = st.PickleFileStore(os.path.join(d, "graph_%s.pkl" % name))
+                    else:
+                        stp = Remote(st.PickleFileStore, lambda: None)
+                    stp.write(value)
+                    got = stp.read()
+                    good = type(got) is type(value) and ok(got)
+                    detail = "read back an object graph of a different shape"
+                except BaseException as e:      # noqa
+                    good, detail = False, "raised %s: %s" % (type(e).__name__, str(e)[:100])
+                if not good:
+                    ctx.fail("pickle:graph", "PickleFileStore (%s) with a picklable value that has %s: %s" % (via, name, detail), {"value": name, "via": via})
         # (b) written over existing content
         for name, store, value in (("touch", st.TouchFileStore, None), ("text", st.TextFileStore, "new"), ("binary", st.BinaryFileStore, b"new"),
                                    ("json", st.JsonFileStore, {"a": 1}), ("pickle", st.PickleFileStore, (1, 2))):
